@@ -24,6 +24,7 @@ import (
 	_ "panmc/checks/c16"
 	_ "panmc/checks/c17"
 	_ "panmc/checks/c18"
+	_ "panmc/checks/c19"
 )
 
 func main() {
